@@ -83,7 +83,10 @@ TraceAnswer ==
              n4 |-> Len(Ev.nodes), n6 |-> Len(Ev.nodes6)]
   /\ UNCHANGED <<rtvars, obs>>
 
-TraceNext == TraceStart \/ TraceSetState \/ TraceTableEvent \/ TraceAnswer
+\* a query that got no reply within the driver's patience: noted, nothing to judge here (C08's business)
+TraceNoReply == IsEvent("NoReply") /\ UNCHANGED <<rtvars, obs, ans>>
+
+TraceNext == TraceStart \/ TraceSetState \/ TraceTableEvent \/ TraceAnswer \/ TraceNoReply
 TraceSpec == TraceInit /\ [][TraceNext]_tvars
 
 \* ---- C05
